@@ -455,6 +455,7 @@ func checkC20(c *km.Ctx) {
 		r.AnchorLost("R-C20-3", "registration into the subscriber table")
 	}
 
+	checkFlushPerEvent(c)
 	// ---------- R-C20-4
 	checkHistory(c, s)
 	checkHistoryFileReplace(c)
@@ -883,4 +884,82 @@ func checkSaveScheduled(c *km.Ctx) {
 		}
 		r.Add("R-C20-4", km.FuncName(loop), "recorded event drops the cached snapshot", posOf(c, rc), "every trip round the event loop that records this event sets the cached event list to nil, on every path", sprintf("%v", ok), ok)
 	}
+}
+
+// checkFlushPerEvent: the notifier's connection writer flushes after every event it writes, before it writes the
+// next one. The monitor decodes with a fresh json.Decoder per event (receiveV0), which reads ahead: two events in
+// one flush make the first decoder swallow the second, the stream desynchronises and the certificates that
+// follow never reach the monitor. The obligation is only generated while the receiver has that shape.
+func checkFlushPerEvent(c *km.Ctx) {
+	r := c.R
+	perEventDecoder := false
+	if rf := c.P.Func("eventmon/monitord", "receiveV0"); rf != nil {
+		for _, ci := range km.CallsIn(rf) {
+			if km.CalleeFull(ci.Common()) == "encoding/json.NewDecoder" {
+				perEventDecoder = true
+			}
+		}
+	}
+	if !perEventDecoder {
+		return
+	}
+	n := 0
+	for _, fn := range c.P.AllFuncs {
+		if fn.Pkg == nil || fn.Pkg.Pkg.Path() != km.ModPath+"/keymasterd/eventnotifier" {
+			continue
+		}
+		// writer loops: a call that encodes an event onto the connection, inside a loop
+		flushBlocks := map[*ssa.BasicBlock]bool{}
+		var writes []ssa.CallInstruction
+		for _, ci := range km.CallsIn(fn) {
+			name := km.CalleeFull(ci.Common())
+			if strings.HasSuffix(name, ").Flush") && (strings.Contains(name, "bufio.ReadWriter") || strings.Contains(name, "bufio.Writer")) {
+				flushBlocks[ci.Block()] = true
+			}
+			if g := km.StaticCallee(ci.Common()); g != nil && g.Blocks != nil && g.Pkg == fn.Pkg && encodesEvent(g) {
+				writes = append(writes, ci)
+			}
+		}
+		for _, w := range writes {
+			b := w.Block()
+			if !blockInCycle(b) {
+				continue
+			}
+			n++
+			ok := true
+			if !flushBlocks[b] {
+				seen := map[*ssa.BasicBlock]bool{}
+				var walk func(x *ssa.BasicBlock)
+				walk = func(x *ssa.BasicBlock) {
+					if seen[x] || flushBlocks[x] {
+						return
+					}
+					seen[x] = true
+					for _, sc := range x.Succs {
+						walk(sc)
+					}
+				}
+				for _, sc := range b.Succs {
+					walk(sc)
+				}
+				if seen[b] {
+					ok = false
+				}
+			}
+			r.Add("R-C20-3", km.FuncName(fn), "each event is flushed before the next is written", posOf(c, w), "every trip round the connection loop that writes an event passes Flush before it can write another (the monitor decodes one event per read)", sprintf("%v", ok), ok)
+		}
+	}
+	if n == 0 {
+		r.AnchorLost("R-C20-3", "event write inside the notifier's connection loop")
+	}
+}
+
+// encodesEvent: g writes an event to a writer with a JSON encoder.
+func encodesEvent(g *ssa.Function) bool {
+	for _, ci := range km.CallsIn(g) {
+		if km.CalleeFull(ci.Common()) == "(*encoding/json.Encoder).Encode" {
+			return true
+		}
+	}
+	return false
 }
